@@ -263,7 +263,7 @@ func TestEnumerateInterruptPoints(t *testing.T) {
 func TestAsyncInterrupts(t *testing.T) {
 	counts := map[string]int{}
 	refs := map[string]*inj.Ref{}
-	rec.Check(t, rec.Scale(14, 400), func(t *rapid.T) {
+	rec.Check(t, rec.Scale(14, 60), func(t *rapid.T) { // counts are per shard
 		async := rapid.IntRange(0, 3).Draw(t, "kind") > 0
 		var c inj.Case
 		if async {
